@@ -58,13 +58,14 @@ contract(R + "FeatureLineDatabase.select_run_item_by_line", props=P,
 # entity -> scenarios
 oracle("rows_of", ["ref"], "val")      # ScenarioOutline.scenarios
 contract("abs:ScenarioOutline.scenarios", trusted=True, params={"self": "ref:ScenarioOutline"},
-         result="seq:ref:Scenario", pure=True, ensures={"value": "result is rows_of(self)"},
-         doc="the row scenarios of an outline (C06 proves the builder)")
+         result="seq:ref:Scenario", modifies=["*._scenarios", "*.index", "*.id", "*.modified"],
+         ensures={"value": "result is rows_of(self)"},
+         doc="the row scenarios of an outline, built on first use (builder: C06)")
 contract(R + "FeatureLineDatabase.select_scenarios_by_line", props=P,
          params={"self": "ref:FeatureLineDatabase", "line": "int"},
          requires={"valid": "ldb_valid(self)", "cache-coherent": "ldb_cache_ok(self)"},
          callsites={"self.select_run_item_by_line": "abs:select_run_item"},
-         modifies=["self._line_numbers", "self._line_entities"],
+         modifies=["self._line_numbers", "self._line_entities", "*._scenarios", "*.index", "*.id", "*.modified"],
          result="seq:any",
          ensures={
              "feature-or-rule-selects-all-its-scenarios":
